@@ -3,7 +3,7 @@ EXTENDS NpyCheck
 \* shapes (f, 1, 1, ..., 1) with d axes: each extra axis adds 3 characters to the dict, so d = 1..70 with
 \* f in {1, 10, 100} realises every dict length modulo 64, including the multiples of 64 minus 10
 MCWriterShapes == {[i \in 1..d |-> IF i = 1 THEN f ELSE 1] : d \in 1..70, f \in {1, 10, 100}}
-                  \cup {<<3>>, <<3, 3>>, <<5, 4, 3>>, <<2, 2, 2, 2>>, <<11, 7>>, <<0>>, <<2, 0>>}
+                  \cup {<<3>>, <<3, 3>>, <<5, 4, 3>>, <<2, 2, 2, 2>>, <<11, 7>>, <<0>>, <<2, 0>>, <<300>>, <<15, 20>>, <<1500>>}
 MCShapesFor(n) == IF n % 2 = 0 THEN <<2, n \div 2>> ELSE <<n>>
 AllSp == Spellings
 CanonSp == [quote |-> "'", comma |-> ", ", colon |-> ": ", trailing |-> TRUE, order |-> <<1, 2, 3>>, tupleComma |-> FALSE]
